@@ -9,6 +9,7 @@ import (
 	"fmt"
 	"os"
 	"path/filepath"
+	"runtime"
 	"sort"
 	"strconv"
 	"strings"
@@ -274,4 +275,11 @@ func (r *Run) Finish() int {
 		return ExitInfra
 	}
 	return ExitOK
+}
+
+// AllStacks returns the stacks of all goroutines (hang reports).
+func AllStacks() string {
+	buf := make([]byte, 1<<20)
+	n := runtime.Stack(buf, true)
+	return string(buf[:n])
 }
